@@ -632,6 +632,10 @@ func validateInvitationAcceptance(msg service.DIDCommMsg, myProfiles []string) e
 		return fmt.Errorf("validateInvitationAcceptance: failed to decode invitation: %w", err)
 	}
 
+	if inv.Body == nil {
+		return errors.New("validateInvitationAcceptance: invitation has no body")
+	}
+
 	if !matchMediaTypeProfiles(inv.Body.Accept, myProfiles) {
 		return fmt.Errorf("no acceptable media type profile found in invitation, invitation Accept property: [%v], "+
 			"agent mediatypeprofiles: [%v]", inv.Body.Accept, myProfiles)
